@@ -4,8 +4,10 @@ set -e
 cd "$(dirname "$0")"
 export GOFLAGS=-mod=mod GOPROXY=off GOSUMDB=off GOTOOLCHAIN=local
 mkdir -p build evidence/replay
-( cd coq && coq_makefile -f _CoqProject -o Makefile >/dev/null && timeout 3000 make -j16 >../build/coq-build.log 2>&1 ) || { tail -40 build/coq-build.log; exit 1; }
+# make -k: a file that does not compile breaks only the checks whose proof cone contains it (each ./check
+# verifies that its own cone is built); the failure is reported here but does not stop the other properties.
+( cd coq && coq_makefile -f _CoqProject -o Makefile >/dev/null && timeout 3000 make -k -j16 >../build/coq-build.log 2>&1 ) || { echo "WARNING: the Coq development did not build completely:"; grep -B2 -A6 "Error" build/coq-build.log | head -60; }
 cp /repo/go.sum harness/go.sum
-( cd harness && go1.26.8 test -c -tags verif -o ../build/harness.test . ) 
+( cd harness && go1.26.8 test -c -tags verif -o ../build/harness.test . ) || echo "WARNING: the base harness did not build"
 ( cd harness && go1.26.8 test -c -race -tags verif -o ../build/harness.race.test . ) || true
 echo setup ok
